@@ -35,18 +35,18 @@ Definition show_block (b : wblock) : string :=
             ("sp", show_pos (startpos (pb_text (block_input b))));
             ("ep", show_pos (endpos (pb_text (block_input b))))].
 
-Fixpoint apply_inserts (fso : bool) (k : nat) (bs : list wblock) : option (list wblock) :=
+Fixpoint apply_inserts (k : nat) (bs : list wblock) : option (list wblock) :=
   match k with
   | O => Some bs
-  | S k' => match insert_new_import_block 0%N fso bs with
+  | S k' => match insert_new_import_block 0%N bs with
             | None => None
-            | Some bs' => apply_inserts fso k' bs'
+            | Some bs' => apply_inserts k' bs'
             end
   end.
 
 (* one pass of a rewriting tool over PythonBlock(s, startpos): split, group, `inserts` calls of
    insert_new_import_block, arbitrary import-set edits (relabel), print *)
-Definition run_tool (s : str) (sl sc : nat) (nodes : list (nat * nat * nat * nat)) (fso : bool)
+Definition run_tool (s : str) (sl sc : nat) (nodes : list (nat * nat * nat * nat))
                     (inserts : nat) (renders : list str) : string :=
   let t := of_str s (mkPos sl sc) in
   let ns := mk_snodes nodes in
@@ -54,7 +54,7 @@ Definition run_tool (s : str) (sl sc : nat) (nodes : list (nat * nat * nat * nat
   | None => "null"
   | Some ps =>
       let bs := preprocess (fun _ => 0%N) ps in
-      match apply_inserts fso inserts bs with
+      match apply_inserts inserts bs with
       | None => show_obj [("blocks", show_list show_block bs); ("out", "null")]
       | Some bs' =>
           show_obj [("blocks", show_list show_block bs);
